@@ -1184,33 +1184,46 @@ impl<'a> Client<'a> {
                 ArmedOut::Text(format!("Str({:?})", s))
             }
             Armed::Burst(rx, reidx, text, n) => {
+                // A long history on one object: cycle over the op's haystack and every other
+                // haystack this thread may read (shared immutable ones and its own), n rounds.
+                // Every repetition of a search must give what its first occurrence gave.
                 let spec = self.spec(*reidx);
-                let mut first: Option<String> = None;
-                let mut out = None;
-                for k in 0..*n {
-                    if let Some(c) = sched::cur_ctx() {
-                        // fuel is per search, not per burst
-                        if !c.model.get() {
-                            c.op_steps.set(0);
-                        }
+                let ascii = spec.input == InputKind::Ascii;
+                let mut texts: Vec<&'static str> = vec![*text];
+                for (i, h) in self.sh.world.hays.iter().enumerate() {
+                    let t = self.sh.bufs[i].text();
+                    if (h.owner.is_none() || h.owner == Some(self.tid as u32)) && t.as_ptr() != text.as_ptr() && (!ascii || t.is_ascii()) {
+                        texts.push(t);
                     }
-                    let m = open_iter(rx, spec, text, 0).next();
-                    let s = match m {
-                        Some(m) => fmt_match(&m),
-                        None => "None".into(),
-                    };
-                    match &first {
-                        None => first = Some(s),
-                        Some(f) => {
-                            if *f != s {
-                                out = Some(format!("BurstDiffers(n={};call 0: {};call {}: {})", n, f, k, s));
-                                break;
+                }
+                let mut first: Vec<Option<String>> = vec![None; texts.len()];
+                let mut out = None;
+                'rounds: for k in 0..*n {
+                    for (j, t) in texts.iter().enumerate() {
+                        if let Some(c) = sched::cur_ctx() {
+                            // fuel is per search, not per burst
+                            if !c.model.get() {
+                                c.op_steps.set(0);
+                            }
+                        }
+                        let m = open_iter(rx, spec, t, 0).next();
+                        let s = match m {
+                            Some(m) => fmt_match(&m),
+                            None => "None".into(),
+                        };
+                        match &first[j] {
+                            None => first[j] = Some(s),
+                            Some(f) => {
+                                if *f != s {
+                                    out = Some(format!("BurstDiffers(n={};haystack {:?};round 0: {};round {}: {})", n, t, f, k, s));
+                                    break 'rounds;
+                                }
                             }
                         }
                     }
                 }
                 self.stats.bursts += 1;
-                ArmedOut::Text(out.unwrap_or_else(|| format!("Burst(n={};all=={})", n, first.unwrap_or_default())))
+                ArmedOut::Text(out.unwrap_or_else(|| format!("Burst(n={};{} haystacks;first={})", n, texts.len(), first[0].clone().unwrap_or_default())))
             }
             Armed::Compile(reidx, text) => {
                 let spec = self.spec(*reidx);
